@@ -32,15 +32,15 @@ variable (h : List Ev) (i : Nat) (a : Args) (e : Bool)
 @[simp] theorem dones_nil : dones [] = 0 := rfl
 @[simp] theorem tasks_nil : tasks [] = 0 := rfl
 @[simp] theorem taskIdxs_nil : taskIdxs [] = [] := rfl
-@[simp] theorem finals_task : finals (.task i a :: h) = finals h := by simp [finals, isFinal, List.filter_cons]
+@[simp] theorem finals_task : finals (.task i a :: h) = finals h := by simp [finals, isFinal]
 @[simp] theorem finals_final : finals (.final e a :: h) = finals h + 1 := by simp [finals, isFinal, List.filter_cons]
-@[simp] theorem finals_done : finals (.done i e a :: h) = finals h := by simp [finals, isFinal, List.filter_cons]
-@[simp] theorem dones_task : dones (.task i a :: h) = dones h := by simp [dones, isDone, List.filter_cons]
-@[simp] theorem dones_final : dones (.final e a :: h) = dones h := by simp [dones, isDone, List.filter_cons]
+@[simp] theorem finals_done : finals (.done i e a :: h) = finals h := by simp [finals, isFinal]
+@[simp] theorem dones_task : dones (.task i a :: h) = dones h := by simp [dones, isDone]
+@[simp] theorem dones_final : dones (.final e a :: h) = dones h := by simp [dones, isDone]
 @[simp] theorem dones_done : dones (.done i e a :: h) = dones h + 1 := by simp [dones, isDone, List.filter_cons]
 @[simp] theorem tasks_task : tasks (.task i a :: h) = tasks h + 1 := by simp [tasks, isTask, List.filter_cons]
-@[simp] theorem tasks_final : tasks (.final e a :: h) = tasks h := by simp [tasks, isTask, List.filter_cons]
-@[simp] theorem tasks_done : tasks (.done i e a :: h) = tasks h := by simp [tasks, isTask, List.filter_cons]
+@[simp] theorem tasks_final : tasks (.final e a :: h) = tasks h := by simp [tasks, isTask]
+@[simp] theorem tasks_done : tasks (.done i e a :: h) = tasks h := by simp [tasks, isTask]
 @[simp] theorem taskIdxs_task : taskIdxs (.task i a :: h) = i :: taskIdxs h := by simp [taskIdxs]
 @[simp] theorem taskIdxs_final : taskIdxs (.final e a :: h) = taskIdxs h := by simp [taskIdxs]
 @[simp] theorem taskIdxs_done : taskIdxs (.done i e a :: h) = taskIdxs h := by simp [taskIdxs]
@@ -474,5 +474,21 @@ theorem finals_of_phase (n : Nat) (c : Chain) (hc : CInv n c) (hp : Phase c) :
       simp only [hq, List.length_nil] at h1
       simp only
       omega
+
+theorem reachable_of_run (n : Nat) : ∀ (ls : List Label) (c c' : Chain), Reachable n c → run c ls = some c' → Reachable n c'
+  | [], c, c', hr, h => by simp [run] at h; exact h ▸ hr
+  | l :: t, c, c', hr, h => by
+    simp only [run] at h
+    split at h
+    · cases h
+    · rename_i c1 hf
+      exact reachable_of_run n t c1 c' (.step l hr hf) h
+
+theorem atMostOnce_of_exactlyOnce (n : Nat) (c : Chain) (h : Reachable n c) (hx : ExactlyOnce c) : AtMostOnce c := by
+  have hi := cinv_reachable n c h
+  intro i
+  by_cases hlt : i < c.invoked
+  · rw [hx i hlt]; exact Nat.le_refl 1
+  · rw [hi.callsZero i (by omega)]; omega
 
 end Cell2v.Waterfall
